@@ -46,6 +46,15 @@ type Op struct {
 	// object - the only way an application can put such an element into a record. Not compared with
 	// the reference encoding either; lengths, buffers and the agreement of the add paths are.
 	Foreign int `json:"foreign,omitempty"`
+	// Wrap > 0: the element at that position is handed over inside an application-defined type that
+	// embeds the library's element (a legitimate implementation of the public interface)
+	Wrap int `json:"wrap,omitempty"`
+}
+
+// wrapped is an application-side implementation of entities.InfoElementWithValue: it embeds the
+// library's element and adds nothing.
+type wrapped struct {
+	entities.InfoElementWithValue
 }
 
 type Case struct {
@@ -84,6 +93,10 @@ func elements(o Op, tpl bool) []entities.InfoElementWithValue {
 		p := (o.FixedStr - 1) % (len(els) + 1)
 		fs := glue.Element(glue.IE(glue.FixedString), ref.TString, ref.Value{B: []byte("sixteen-byte-str")[:8+o.FixedStr%9]})
 		els = append(els[:p:p], append([]entities.InfoElementWithValue{fs}, els[p:]...)...)
+	}
+	if o.Wrap > 0 && len(els) > 0 {
+		p := (o.Wrap - 1) % len(els)
+		els[p] = wrapped{els[p]}
 	}
 	if o.Foreign > 0 && !tpl {
 		p := (o.Foreign - 1) % (len(els) + 1)
@@ -381,6 +394,9 @@ func genCase(t *rapid.T) Case {
 				o.Spare = rapid.SampledFrom([]int{0, 0, 1, 5, 8}).Draw(t, "spare")
 				if rapid.IntRange(0, 9).Draw(t, "fixedstr") == 0 {
 					o.FixedStr = rapid.IntRange(1, 13).Draw(t, "fixedstrpos")
+				}
+				if rapid.IntRange(0, 7).Draw(t, "wrap") == 0 {
+					o.Wrap = rapid.IntRange(1, 13).Draw(t, "wrappos")
 				}
 				if rapid.IntRange(0, 11).Draw(t, "foreign") == 0 {
 					o.Foreign = rapid.IntRange(1, 13).Draw(t, "foreignpos")
